@@ -73,6 +73,20 @@ def make_session(engine: str):
     return session
 
 
+def fingerprint(expression, args, cname):
+    """for the probe name and every other column argument: how often it occurs in the built tree as a column
+    reference and as a string literal (the data-flow the model must reproduce)"""
+    from sqlglot import exp
+    names = [cname] + [a["name"] for a in args if a["t"] == "col"]
+    cols, lits = {}, {}
+    for node in expression.walk():
+        if isinstance(node, exp.Column) and isinstance(node.this, exp.Identifier) and not node.table:
+            cols[node.name] = cols.get(node.name, 0) + 1
+        elif isinstance(node, exp.Literal) and node.is_string:
+            lits[node.this] = lits.get(node.this, 0) + 1
+    return [[n, cols.get(n, 0), lits.get(n, 0)] for n in names]
+
+
 def one_call(fn, F, args, cname, as_col):
     from sqlframe.base.column import Column
     try:
@@ -88,7 +102,7 @@ def one_call(fn, F, args, cname, as_col):
             sql = r.sql()
         except Exception as ex:  # noqa: BLE001
             return {"k": "raise", "exc": "sql(): " + type(ex).__name__ + ": " + str(ex)[:120]}
-        return {"k": "ok", "sql": sql, "tree": repr(r.expression)}
+        return {"k": "ok", "sql": sql, "tree": repr(r.expression), "fp": fingerprint(r.expression, args, cname)}
     return {"k": "ok", "sql": "non-Column result: " + repr(r)[:300], "tree": repr(r)[:300]}
 
 
@@ -117,7 +131,8 @@ def main():
                 verdict = "D"
             rec = {"name": cname, "verdict": verdict,
                    "str_form": a.get("sql", a.get("exc")), "col_form": b.get("sql", b.get("exc")),
-                   "tree_equal": a.get("tree") == b.get("tree") if a["k"] == b["k"] == "ok" else None}
+                   "tree_equal": a.get("tree") == b.get("tree") if a["k"] == b["k"] == "ok" else None,
+                   "fp_str": a.get("fp"), "fp_col": b.get("fp")}
             per_name.append(rec)
         out.append({"id": v["id"], "per_name": per_name})
     json.dump({"engine": engine, "session_class": type(session).__mro__[1].__name__ if engine not in ("standalone", "duckdb")
